@@ -1,5 +1,114 @@
+import PsiModel.Buffer
 import Drivers.Common
-/-! Stub: replaced by the driver of the `Buffer` model. -/
+/-!
+Line protocol of the `buffer` model (C14).  Payload cells: the `k`-th sample ever appended in
+this case is `data k` (so content identifies position); `I` = the constructor's fill value,
+`N` = the NaN written by `_invalidate`, `F` = the fill value of a filled read.
+
+  new <cap>                     -> ok <lb> <ub>
+  append <n>                    -> ok <lb> <ub>            | err ValueError   (n = 0)
+  inval <i>                     -> ok <lb> <ub>
+  resize <c>                    -> ok <lb> <ub>            | err IndexError
+  bounds                        -> ok <lb> <ub>
+  read <lb> <ub>                -> ok <cells>              | err IndexError
+  window                        -> ok <cells>              | err IndexError
+  filled <lb> <ub>              -> ok <cells>              | err IndexError
+  latest <lb> <ub>              -> ok <cells>              | err IndexError
+  latestf <lb> <ub>             -> ok <cells>              | err IndexError
+  probe                         -> P <lb> <ub> | window | read(lb-1,ub) | read(lb,ub+1) | read(lb+1,ub-1)
+                                     | filled(lb-2,ub+1) | filled(lb-3,lb-1) | filled(ub+1,ub+3) | latestf(-2,0)
+  orig-inval <i>, orig-filled <lb> <ub> : the two operations as found in the repository.
+-/
 namespace Psi.Driver.Buffer
-def main : IO Unit := pure ()
+open Psi.Driver Psi.Buffer
+
+inductive Cell | data (k : Nat) | fillInit | nan | pad
+  deriving Repr, DecidableEq
+
+def showCell : Cell → String
+  | .data k => toString k
+  | .fillInit => "I"
+  | .nan => "N"
+  | .pad => "F"
+
+def showCells (l : List Cell) : String :=
+  if l.isEmpty then "-" else ",".intercalate (l.map showCell)
+
+def showErr : Err → String
+  | .indexError => "IndexError"
+  | .valueError => "ValueError"
+
+def showRead : Except Err (List Cell) → String
+  | .ok l => s!"ok {showCells l}"
+  | .error e => s!"err {showErr e}"
+
+/-- compact form used inside `probe` -/
+def showRead' : Except Err (List Cell) → String
+  | .ok l => showCells l
+  | .error e => showErr e
+
+structure DState where
+  buf : Option (State Cell) := none
+  /-- number of samples appended so far in this case: the next payload -/
+  next : Nat := 0
+
+def bounds (s : State Cell) : String := s!"{samplesLb s} {samplesUb s}"
+
+def probe (s : State Cell) : String :=
+  let lb := samplesLb s
+  let ub := samplesUb s
+  " | ".intercalate
+    [s!"P {lb} {ub}", showRead' (window s), showRead' (rangeSamples s (lb - 1) ub),
+     showRead' (rangeSamples s lb (ub + 1)), showRead' (rangeSamples s (lb + 1) (ub - 1)),
+     showRead' (rangeFilled s (lb - 2) (ub + 1) .pad), showRead' (rangeFilled s (lb - 3) (lb - 1) .pad),
+     showRead' (rangeFilled s (ub + 1) (ub + 3) .pad), showRead' (latest s (-2) 0 (some .pad))]
+
+def step (d : DState) (ws : List String) : DState × String :=
+  match ws, d.buf with
+  | ["new", c], _ =>
+    match parseNat? c with
+    | some c =>
+      let s := init c Cell.fillInit Cell.nan
+      ({ buf := some s, next := 0 }, s!"ok {bounds s}")
+    | none => (d, "bad-op")
+  | _, none => (d, "bad-op")
+  | ["append", n], some s =>
+    match parseNat? n with
+    | some n =>
+      match appendE s ((List.range n).map fun j => Cell.data (d.next + j)) with
+      | .ok s' => ({ buf := some s', next := d.next + n }, s!"ok {bounds s'}")
+      | .error e => (d, s!"err {showErr e}")
+    | none => (d, "bad-op")
+  | ["inval", i], some s =>
+    match parseNat? i with
+    | some i => let s' := invalidateSamples s i; ({ d with buf := some s' }, s!"ok {bounds s'}")
+    | none => (d, "bad-op")
+  | ["orig-inval", i], some s =>
+    match parseNat? i with
+    | some i => let s' := invalidateSamplesOrig s i; ({ d with buf := some s' }, s!"ok {bounds s'}")
+    | none => (d, "bad-op")
+  | ["resize", c], some s =>
+    match parseNat? c with
+    | some c =>
+      match resizeE s c with
+      | .ok s' => ({ d with buf := some s' }, s!"ok {bounds s'}")
+      | .error e => (d, s!"err {showErr e}")
+    | none => (d, "bad-op")
+  | ["bounds"], some s => (d, s!"ok {bounds s}")
+  | ["window"], some s => (d, showRead (window s))
+  | ["probe"], some s => (d, probe s)
+  | [op, a, b], some s =>
+    match parseInt? a, parseInt? b with
+    | some a, some b =>
+      match op with
+      | "read" => (d, showRead (rangeSamples s a b))
+      | "filled" => (d, showRead (rangeFilled s a b .pad))
+      | "orig-filled" => (d, showRead (rangeFilledOrig s a b .pad))
+      | "latest" => (d, showRead (latest s a b none))
+      | "latestf" => (d, showRead (latest s a b (some .pad)))
+      | _ => (d, "bad-op")
+    | _, _ => (d, "bad-op")
+  | _, _ => (d, "bad-op")
+
+def main : IO Unit := run ({} : DState) step
 end Psi.Driver.Buffer
